@@ -247,7 +247,7 @@ int v_violation(const char *key, const char *fmt, ...)
 	printf("VIOLATION property=%s replay=%s\n", v_prop, path);
 	printf("  key: %s\n  %.*s\n", key, 1500, buf);
 	fflush(stdout);
-	if (v_nviol >= 20) {
+	if (v_nviol >= 100) {
 		printf("too many violations, stopping shard\n");
 		exit(v_finish());
 	}
